@@ -108,10 +108,23 @@ def run_case(grid, specs):
     from mc.worlds import base, uni
     from mc.worlds.base import Scripted, make_actuator, run_quiet
 
-    start_minute, interval, raw_len = grid
+    start_minute, interval, raw_len = grid[:3]
     pool = uni.pool_q0()
     raw = uni.raw_frame([200000] * raw_len, 0, 0, 10**18, start=base.T0 + timedelta(minutes=start_minute))
     market = uni.make_market(pool, uni.prepared(raw, pool))
+    markets, assets, prices = [market], [(uni.USDC, 1000), (uni.WETH, 1)], market.get_price_from_data()
+    if len(grid) > 3 and grid[3] == "hourly":
+        # an hourly option market beside the minutely pool: it is closed on every bar that is not on the hour, which must not matter to the triggers
+        from decimal import Decimal
+        from mc.worlds import deribit as db
+
+        odata = db.std_frame(2)
+        om = db.make_market(odata)
+        up = prices[0].map(lambda y: Decimal(str(y)))
+        op = db.price_frame(odata).loc[up.index[0]:up.index[-1]].copy()
+        for c in up.columns:
+            op[c] = up[c]
+        markets, assets, prices = [market, om], assets + [(db.ETH, 3)], op
     fired = [[] for _ in specs]
     present = [[] for _ in specs]
     trigs = []
@@ -144,8 +157,7 @@ def run_case(grid, specs):
             present[i].append(None if t is None else any(x is t for x in strategy.triggers))
 
     st = Scripted({("initialize", -1): [init], ("on_bar", "*"): [late], ("after_bar", "*"): [after]})
-    act = make_actuator([market], [(uni.USDC, 1000), (uni.WETH, 1)], st, market.get_price_from_data(),
-                        interval=f"{interval}min")
+    act = make_actuator(markets, assets, st, prices, interval=f"{interval}min")
     err = None
     try:
         run_quiet(act)
@@ -202,6 +214,8 @@ def grids(thorough):
     for start in (0, 7):
         for interval, raw_len in ((1, 8), (2, 16), (5, 30)) if not thorough else ((1, 12), (2, 22), (5, 45)):
             out.append((start, interval, raw_len))
+    out.append((0, 1, 8, "hourly"))
+    out.append((7, 2, 16, "hourly"))
     return out
 
 
@@ -211,7 +225,7 @@ def bar_grid(grid):
     import pandas as pd
     from mc.worlds import base
 
-    start_minute, interval, raw_len = grid
+    start_minute, interval, raw_len = grid[:3]
     idx = pd.date_range(base.T0 + timedelta(minutes=start_minute), periods=raw_len, freq="1min")
     return [t.to_pydatetime() for t in pd.Series(0, index=idx).resample(f"{interval}min").first().index]
 
